@@ -28,10 +28,11 @@ St0(cfg) == [cfg |-> cfg, claim |-> Absent, lastClaim |-> Absent, node |-> Absen
              pods |-> <<>>, vas |-> <<>>,           \* name -> record
              inst |-> <<>>,                          \* provider instance table (sequence)
              created |-> {}, notFound |-> {},        \* ghosts: pids created for the claim / reported NotFound to Karpenter
-             restarted |-> FALSE,                    \* ghost: controller restart since the last successful create
+             lostPids |-> {},                        \* ghost: created pids that were not persisted when the process restarted
              queue |-> <<>>,                         \* pod name -> [uid, dl] as projected after the last reconcile
              qU |-> <<>>,                            \* ghost: pod uid -> earliest deadline it was queued under (this process)
-             ctl |-> "-"]                            \* controller whose reconcile is running
+             ctl |-> "-",                            \* controller whose reconcile is running
+             view |-> Absent]                        \* the informer copy an eviction-queue reconcile was handed
 
 TraceInit == l = 1 /\ st = St0(Absent) /\ viol = <<>> /\ ntr = 0 /\ done = FALSE
 
@@ -54,19 +55,26 @@ DlOf(p) == IF p.uid \in DOMAIN st.qU THEN st.qU[p.uid] ELSE NodeDeadline
 FinalizerRemoved(pre, post) == pre.exists /\ pre.finalizer /\ (~post.exists \/ ~post.finalizer)
 NodePids == {n.providerID : n \in {x \in {st.node} : x.exists}}
 
+\* witness class: which created instances are not confirmed gone
+\*   all of them had not been persisted in status.providerID when the controller restarted (the launch cache, their only
+\*   record, died with the process)                                     -> providerID-unpersisted-after-restart
+\*   the NodeClaim never got a provider id although an instance was created -> providerID-unpersisted
+\*   otherwise                                                            -> instance-not-confirmed-gone
+LeakSig(pre) ==
+    LET leaked == st.created \ st.notFound IN
+    IF leaked # {} /\ leaked \subseteq st.lostPids THEN "providerID-unpersisted-after-restart"
+    ELSE IF pre.providerID = "-" THEN "providerID-unpersisted"
+    ELSE "instance-not-confirmed-gone"
 ClaimChecks(pre, post) ==
     IF ~(Karpenter /\ FinalizerRemoved(pre, post)) THEN <<>> ELSE
     LET q == ClaimFinalizerParts(pre, NodePids, st.created, st.notFound)
-        unpersisted == pre.providerID = "-"
-        sig == IF ~q.nodesGone THEN "node-still-present"
-               ELSE IF unpersisted /\ st.restarted THEN "providerID-unpersisted-after-restart"
-               ELSE IF unpersisted THEN "providerID-unpersisted"
-               ELSE "instance-not-confirmed-gone"
-    IN Chk(G_C09_ClaimFinalizer(pre, NodePids, st.created, st.notFound), "G_C09_ClaimFinalizer", sig)
-       \o (IF post.exists THEN <<>>
-           ELSE Chk(NoLeak(st.created, st.inst), "Inv_C09_NoLeak",
-                    IF unpersisted /\ st.restarted THEN "providerID-unpersisted-after-restart"
-                    ELSE IF unpersisted THEN "providerID-unpersisted" ELSE "instance-present"))
+        sig == IF ~q.nodesGone THEN "node-still-present" ELSE LeakSig(pre)
+        ok == G_C09_ClaimFinalizer(pre, NodePids, st.created, st.notFound)
+    IN Chk(ok, "G_C09_ClaimFinalizer", sig)
+       \* the user-visible invariant, judged on the provider's real table at the instant the object disappears; reported
+       \* only where the guard (what Karpenter was told) held, otherwise it is the same finding twice
+       \o (IF post.exists \/ ~ok THEN <<>>
+           ELSE Chk(NoLeak(st.created, st.inst), "Inv_C09_NoLeak", "instance-present-although-reported-gone"))
 
 \* the guard applies to a managed Node that has (exactly one) NodeClaim
 HasClaim(n) == st.claim.exists /\ n.providerID # "-" /\ st.claim.providerID = n.providerID
@@ -84,8 +92,11 @@ PodChecks(pre, post, ok) ==
         Chk(G_C10_EvictOnlyEvictable(pre, Ev.t, st.cfg.dndDur), "G_C10_EvictOnlyEvictable", EvictSig(pre, Ev.t, st.cfg.dndDur))
         \o Chk(G_C10_TierOrder(pre, DlOf(pre), PodsOn(pre.node), DlOf, Ev.t, SA, st.cfg.dndDur), "G_C10_TierOrder", "at-evict")
     ELSE IF Ev.verb = "delete" THEN
-        Chk(G_C10_ForceOnlyWithTgpAfterThreshold(pre, DlOf(pre), TgpSet, Ev.t), "G_C10_ForceOnlyWithTgpAfterThreshold",
-            ForceSig(pre, DlOf(pre), TgpSet, Ev.t))
+        \* judged on the stored pod or on the (lagging) copy the reconcile was handed: a pod seen terminating beyond
+        \* the deadline may be deleted again although another delete has shortened it meanwhile
+        Chk(\/ G_C10_ForceOnlyWithTgpAfterThreshold(pre, DlOf(pre), TgpSet, Ev.t)
+            \/ (st.view.exists /\ st.view.uid = pre.uid /\ G_C10_ForceOnlyWithTgpAfterThreshold(st.view, DlOf(pre), TgpSet, Ev.t)),
+            "G_C10_ForceOnlyWithTgpAfterThreshold", ForceSig(pre, DlOf(pre), TgpSet, Ev.t))
         \o Chk(G_C10_GraceAtLeastOne(pre, Ev.grace), "G_C10_GraceAtLeastOne", "zero-grace")
         \o Chk(G_C10_GraceWithinDeadline(pre, Ev.grace, DlOf(pre), Ev.t), "G_C10_EarliestDeadline", "grace-beyond-queued-deadline")
     ELSE \* any other write: pods are removed by no other call
@@ -143,20 +154,22 @@ TProv ==
            nf == Karpenter /\ Ev.call \in {"Delete", "Get"} /\ Ev.err = "NotFound"
        IN st' = [st EXCEPT !.inst = Ev.post,
                            !.created = IF okCreate THEN @ \cup {Ev.result} ELSE @,
-                           !.restarted = IF okCreate THEN FALSE ELSE @,
                            !.notFound = IF nf THEN @ \cup {Ev.arg} ELSE @]
     /\ UNCHANGED viol
 
-TBegin == Ev.e = "Begin" /\ st' = [st EXCEPT !.ctl = Ev.controller] /\ UNCHANGED viol
+TBegin == Ev.e = "Begin" /\ st' = [st EXCEPT !.ctl = Ev.controller, !.view = Ev.view] /\ UNCHANGED viol
 TEnd == /\ Ev.e = "End" /\ UNCHANGED st
         /\ viol' = viol \o Chk(~Ev.panic, IF Ev.controller = "eviction-queue" THEN "Inv_C10_NoPanic" ELSE "Inv_C09_NoPanic", Ev.controller)
 TMem ==
     /\ Ev.e = "Mem"
     /\ LET new == QFun(Ev.queue) IN
        /\ viol' = viol \o QueueChecks(st.queue, new)
-       /\ st' = [st EXCEPT !.queue = new, !.qU = QU(st.queue, new), !.ctl = "-"]
+       /\ st' = [st EXCEPT !.queue = new, !.qU = QU(st.queue, new), !.ctl = "-", !.view = Absent]
 \* a restart loses the in-memory eviction queue (and the lifecycle launch cache)
-TRestart == Ev.e = "Restart" /\ st' = [st EXCEPT !.queue = <<>>, !.qU = <<>>, !.restarted = TRUE] /\ UNCHANGED viol
+TRestart == /\ Ev.e = "Restart"
+            /\ st' = [st EXCEPT !.queue = <<>>, !.qU = <<>>,
+                                !.lostPids = @ \cup {p \in st.created : ~(st.claim.exists /\ st.claim.providerID = p)}]
+            /\ UNCHANGED viol
 TOther == Ev.e \in {"Tick", "Skip", "Read"} /\ UNCHANGED <<st, viol>>
 
 TraceNext ==
